@@ -36,7 +36,8 @@ ASSUMPTIONS = [
     'a stale file planted at the very output path may legitimately make a stage refuse to run; such outcome '
     'differences are not judged',
 ]
-OPS = ['mapping', 'mapping', 'mapping', 'stats', 'refmarkers', 'pmask', 'pmask_markers', 'qmarkers', 'validate']
+OPS = ['mapping', 'mapping', 'mapping', 'stats', 'refmarkers', 'pmask', 'pmask_markers', 'qmarkers', 'validate',
+       'validate']
 STALE = [
     ('d', 'result_buffer_STALE/results_buffer_OLD/0_2_assignment.json', b'[{"cell_id": "ghost"}]'),
     ('d', 'result_buffer_STALE2/0_3_assignment.json', b'[{"cell_id": "ghost2"}]'),
@@ -252,22 +253,33 @@ def call_op(sb, ctx, op, out_dir, scratch, sched, clean=False):
     mapper = GeneIdMapper(data={'symA': 'ENSMUSG99999999999'})
     src = sb.p('in', 'val.h5ad')
     chained = None
-    if cfg.get('chain') and not clean and ctx.get('validated_products'):
-        chained = ctx['validated_products'][-1]
-        if os.path.exists(chained):
+    if cfg.get('chain') and not clean:
+        prods = [p_ for p_ in ctx.get('validated_products', []) if os.path.exists(p_)]
+        if not prods:
+            # no product of an earlier validation yet: make one first (same operation, same simulated second
+            # unless the clock plan says otherwise), then validate that product into its own directory
+            o0, _ = harness.run_call({'policy': 'fifo', 'seed': 0}, validate_h5ad, h5ad_path=src,
+                                     gene_id_mapper=mapper, tmp_dir=scratch, layer='X',
+                                     round_to_int=cfg['round_to_int'], output_dir=out_dir)
+            if o0[0] == 'ok' and o0[1][0] is not None:
+                ctx.setdefault('validated_products', []).append(str(o0[1][0]))
+                prods = [str(o0[1][0])]
+        if prods:
+            chained = prods[-1]
             src = chained
-        else:
-            chained = None
     kw = dict(h5ad_path=src, gene_id_mapper=mapper, tmp_dir=scratch, layer='X',
               round_to_int=cfg['round_to_int'])
     if chained is not None:
         kw['output_dir'] = os.path.dirname(chained)
-        ctx['chained_input'] = chained
+        sha_before = harness.file_sha(chained)
     elif cfg['use_output_dir']:
         kw['output_dir'] = out_dir
     else:
         kw['valid_h5ad_path'] = o['valid']
     out, s_ = harness.run_call(sched, validate_h5ad, **kw)
+    if chained is not None:
+        ctx['chain_check'] = (chained, sha_before, os.path.exists(chained),
+                              harness.file_sha(chained) if os.path.exists(chained) else None)
     if out[0] == 'ok' and not clean and out[1][0] is not None and '_VALIDATED_' in os.path.basename(str(out[1][0])):
         ctx.setdefault('validated_products', []).append(str(out[1][0]))
     return out, s_
@@ -424,11 +436,7 @@ def run(scn, sb):
                     finally:
                         KERNEL.statvfs_full, KERNEL.parent_fault = saved
                 KERNEL.nested_cb = cb
-            chain_before = None
-            if op['stage'] == 'validate' and op['cfg'].get('chain') and ctx.get('validated_products') \
-                    and os.path.exists(ctx['validated_products'][-1]):
-                cpath = ctx['validated_products'][-1]
-                chain_before = (cpath, harness.file_sha(cpath))
+            ctx.pop('chain_check', None)
             apply_fault(op, sched, n_events=cleans[0][3])
             try:
                 out, s = call_op(sb, ctx, op, out_dir, scratch, sched)
@@ -471,14 +479,15 @@ def run(scn, sb):
                                              ' fault=%s' % json.dumps(f) if f else '', out[0])
             op_summ.append(desc + ((': ' + out[1][:80]) if out[0] == 'raised' else ''))
             # ---- (1) inputs untouched
-            if chain_before is not None:
+            cc = ctx.pop('chain_check', None)
+            if cc is not None:
                 pr['validation_of_an_earlier_product'] = pr.get('validation_of_an_earlier_product', 0) + 1
-                cpath, csha = chain_before
-                if not os.path.exists(cpath):
+                cpath, csha, exists_after, sha_after = cc
+                if not exists_after:
                     viol.append({'cls': 'input-deleted', 'detail': '%s: the input %s (product of an earlier validation, '
                                  'validated again into its own directory) no longer exists'
                                  % (desc, os.path.basename(cpath))})
-                elif harness.file_sha(cpath) != csha:
+                elif sha_after != csha:
                     viol.append({'cls': 'input-modified', 'detail': '%s: the input %s (product of an earlier validation) '
                                  'was overwritten' % (desc, os.path.basename(cpath))})
             in_after = input_state(sb)
@@ -548,6 +557,8 @@ def run(scn, sb):
             for o2, cl, (oc, sc) in zip(ops_here, cleans,
                                         [(out, s)] + ([(nested_result['out'], nested_result['sched'])]
                                                       if nested_result else [])):
+                if o2['stage'] == 'validate' and o2['cfg'].get('chain'):
+                    continue      # validates a product of this history, not the fixed input: no clean-room twin
                 faulted = (bool(o2.get('fault')) and o2 is op) or (o2.get('fault') or {}).get('kind') == 'bad_input'
                 if oc[0] == 'ok':
                     dg = op_digest(o2, out_dir, oc)
